@@ -19,7 +19,7 @@ THEOREMS = ['C06_is_constant_spec', 'C06_is_constant_none_spec', 'C06_is_repeati
             'C06_reach_complete', 'C06_simplify_vslices_tsamples_refuted',
             'C06_subset_canonical', 'C06_subset_canonical_from_canonical', 'C06_subset_canonical_refuted',
             'C06_merge_canonical', 'C06_merge_canonical_nonslice', 'C06_merge_canonical_refuted', 'C06_insert_invariant',
-            'C06_const_readable', 'C06_none_dropped_partial', 'C06_none_dropped_refuted', 'C06_per_volume']
+            'C06_const_readable', 'C06_merge_const_readable', 'C06_none_dropped_partial', 'C06_none_dropped_refuted', 'C06_per_volume']
 ALLOWED_AXIOMS = []
 TABLES = ['t_classes', 't_ext_tol']
 TRUSTED_BASE = ['hand-written Gallina model coq/Ext/Model.v of from_sequence/_insert*/_simplify/get_subset/_copy_*, tied to the '
@@ -193,7 +193,7 @@ class Merge:
 
     @staticmethod
     def gen_cases(rng, tier):
-        n1, n2 = (260, 420) if tier == 'quick' else (3000, 5000)
+        n1, n2 = (260, 420) if tier == 'quick' else (2000, 3500)
         cases = [extlib.gen_merge_case(rng, tier) for _ in range(n1)]
         cases += [gen_struct_merge(rng, tier) for _ in range(n2)]
         return cases
@@ -270,7 +270,7 @@ class Subset:
 
     @staticmethod
     def gen_cases(rng, tier):
-        n1, n2 = (150, 45) if tier == 'quick' else (2000, 500)
+        n1, n2 = (150, 45) if tier == 'quick' else (1500, 300)
         cases = []
         for _ in range(n1):
             c = extlib.gen_subset_case(rng, tier)
